@@ -15,6 +15,7 @@ import (
 	"strconv"
 	"strings"
 	"sync"
+	"sync/atomic"
 	"testing/synctest"
 	"time"
 
@@ -93,6 +94,9 @@ type Exec struct {
 	Clients []*Client
 	Policy  Policy
 	start   time.Time
+	// Bypass: hooks return at once (free-running bursts that want the library's own locks contended,
+	// not the controller's)
+	Bypass atomic.Bool
 
 	Sched     []string // labels to follow, if any
 	schedPos  int
@@ -109,8 +113,8 @@ type Exec struct {
 	// section and return happen in one controller step.
 	OptDouble, OptParkUnl bool
 	// ParkUnl: in this (seeded, not schedule-following) execution verifhook.Unlocked is a park point too
-	ParkUnl bool
-	rng2   *rand.Rand
+	ParkUnl   bool
+	rng2      *rand.Rand
 	starve    string
 	lastActor string
 	Steps     int
@@ -235,6 +239,9 @@ func (x *Exec) Self() *Actor {
 }
 
 func (x *Exec) hook(kind, site string, obj any) {
+	if x.Bypass.Load() {
+		return
+	}
 	// a TryLock site is a lock site for the policies and the depth accounting; only Park.Kind tells
 	// them apart (a driver may grant it while the lock is held: the attempt fails, nothing blocks)
 	try := kind == "trylock"
